@@ -58,6 +58,8 @@ FIXED_PROBES = [
 ]
 PARSE_PROBES = [
     'a $b$ {c} \\ab[o]{m} ~', '\\begin{e}a $$b$$\\end{e} x', '\\(a\\) @b@ \\[c\\] <d>', 'a%c\n\nb \\x{y}',
+    '\\begin{em}a_b $x$\\end{em} \\vb{p{q}r} \\vb|%|', '\\dl<a>(b)+ \\any[c] \\begin{eo}[o]{m}z\\end{eo}',
+    '!ab[o]{m} !begin{em}x!end{em} #c\n!x<y>', '$a \\x{b$c$} d$ @@e@@',
 ]
 
 ASSUMPTIONS = [
@@ -144,10 +146,15 @@ def contexts():
     from pylatexenc import macrospec
     from pylatexenc.latexwalker import get_default_latex_context_db
     small = macrospec.LatexContextDb()
+    from pylatexenc.latexnodes import ParsingStateDeltaEnterMathMode
     small.add_context_category('small', macros=[
         macrospec.MacroSpec('ab', '[{'), macrospec.MacroSpec('x', '{'),
+        macrospec.MacroSpec('vb', ['v']), macrospec.MacroSpec('dl', ['d<>', 'r()', 't+']),
+        macrospec.MacroSpec('any', ['AnyDelimited']),
     ], environments=[
         macrospec.EnvironmentSpec('e', ''),
+        macrospec.EnvironmentSpec('em', '', body_parsing_state_delta=ParsingStateDeltaEnterMathMode()),
+        macrospec.EnvironmentSpec('eo', '[{'),
     ], specials=[
         macrospec.SpecialsSpec('~'), macrospec.SpecialsSpec('``'), macrospec.SpecialsSpec('\n\n'),
         macrospec.SpecialsSpec('&'),
